@@ -20,6 +20,7 @@ func propC03(c *Ctx) {
 	c.R.Explanation = "Decides the mechanisms behind 'a single fault is rejected at the fault': (a) every insertion into a name-keyed catalog collection and every single-valued slot is dominated by a pure presence test whose hit branch returns an error (closures passed to Update are tied to the value tested right before); (b) the uniqueness sets of the core are only inserted after their own lookup rejected a duplicate, are never reset, and no 'already there, skip' lookup short-cuts a declaration; (c) every fault-class message constant is still raised on a reachable path; (d) errors built in directive handlers are located on the handler's own directive; (e) no error result is dropped on the build path; (f) every handler uses or rejects the annotation; (g) JSIGHT-first is tested before anything is added. Not decided: that the right check fires first for every fault x layout combination, nor line equality (a PASTE relocates errors of its macro body to the PASTE line by design)."
 	c.ruleHasBeforeSet()
 	c.ruleUniqSets()
+	c.ruleDeclaredNamesUnique()
 	c.ruleNoSkipOnExists()
 	c.ruleFaultClassLive()
 	c.ruleErrReceiver()
@@ -1333,5 +1334,136 @@ func (c *Ctx) ruleJsightFirst() {
 		} else {
 			r.Bad("C03-JSIGHT-FIRST", "AddJSight", "a repeated JSIGHT is not refused", c.pos(g.Decl.Pos()))
 		}
+	}
+}
+
+// ruleDeclaredNamesUnique: a table of package core that is keyed by a name a directive declares (the Name parameter
+// of TYPE ...) takes a second declaration of the same name silently unless the insertion is guarded: the insertion
+// X.Set(d.NamedParameter(p), d) must be dominated -- in the function itself or, when d is its parameter, in every
+// caller -- by a test of X.Has(<the same parameter of the same directive>) whose hit returns an error (an extra
+// conjunct `name != ""` is allowed: a missing name is reported on the directive itself).
+func (c *Ctx) ruleDeclaredNamesUnique() {
+	r := c.R
+	r.Rule("C03-DECLARED-NAMES-UNIQUE", "in package core every insertion into an ordered map under a key taken from a directive's named parameter is dominated (in the function, or in each caller that hands the directive in) by a Has test of the same map for the same parameter of the same directive whose hit returns an error: a second declaration is rejected at the second declaration, it does not replace the first", 1)
+	pk := c.P.Pkg("core")
+	if pk == nil {
+		r.Undecided("C03-DECLARED-NAMES-UNIQUE", "anchor", "package core not loaded", "")
+		return
+	}
+	type keySig struct{ base, param string }
+	sigOf := func(g *Fn, e ast.Expr) (keySig, ast.Expr, bool) {
+		call, ok := ast.Unparen(e).(*ast.CallExpr)
+		if !ok || len(call.Args) != 1 {
+			return keySig{}, nil, false
+		}
+		cal := callee(g.Pkg, call)
+		if cal == nil || cal.Name() != "NamedParameter" {
+			return keySig{}, nil, false
+		}
+		sel, ok := ast.Unparen(call.Fun).(*ast.SelectorExpr)
+		lit, isConst := constString(g.Pkg, call.Args[0])
+		if !ok || !isConst {
+			return keySig{}, nil, false
+		}
+		return keySig{accessPath(g.Pkg, sel.X), lit}, sel.X, true
+	}
+	// guarded: in g, `site` is dominated by an if whose condition has the conjunct M.Has(k) with k of signature sig
+	guarded := func(g *Fn, site ast.Node, mapPath string, sig keySig) bool {
+		cf := buildCFG(g.Decl.Body)
+		found := false
+		ast.Inspect(g.Decl.Body, func(n ast.Node) bool {
+			ifs, ok := n.(*ast.IfStmt)
+			if !ok || !returnsNonNilError(g.Pkg, ifs.Body.List) {
+				return true
+			}
+			// locals defined in the init from a call of the same signature
+			locals := map[types.Object]bool{}
+			if as, ok := ifs.Init.(*ast.AssignStmt); ok && len(as.Lhs) == 1 && len(as.Rhs) == 1 {
+				if s2, _, ok := sigOf(g, as.Rhs[0]); ok && s2 == sig {
+					if id, ok := as.Lhs[0].(*ast.Ident); ok {
+						locals[g.Pkg.TypesInfo.Defs[id]] = true
+					}
+				}
+			}
+			for _, a := range impliedAtoms(ifs.Cond, true) {
+				call, ok := a.e.(*ast.CallExpr)
+				if !ok || !a.holds || len(call.Args) != 1 {
+					continue
+				}
+				cal := callee(g.Pkg, call)
+				if cal == nil || cal.Name() != "Has" {
+					continue
+				}
+				sel, ok := ast.Unparen(call.Fun).(*ast.SelectorExpr)
+				if !ok || accessPath(g.Pkg, sel.X) != mapPath {
+					continue
+				}
+				keyOK := false
+				if s2, _, ok := sigOf(g, call.Args[0]); ok && s2 == sig {
+					keyOK = true
+				}
+				if id, ok := ast.Unparen(call.Args[0]).(*ast.Ident); ok && locals[g.Pkg.TypesInfo.Uses[id]] {
+					keyOK = true
+				}
+				if keyOK && cf.dominatedBy(site, ifs.Cond) {
+					found = true
+				}
+			}
+			return true
+		})
+		return found
+	}
+	n := 0
+	for _, f := range c.libFns() {
+		if f.Pkg != pk {
+			continue
+		}
+		ast.Inspect(f.Decl.Body, func(nd ast.Node) bool {
+			call, ok := nd.(*ast.CallExpr)
+			if !ok || len(call.Args) != 2 {
+				return true
+			}
+			cal := callee(pk, call)
+			if cal == nil || (cal.Name() != "Set" && cal.Name() != "SetToTop") {
+				return true
+			}
+			sel, ok := ast.Unparen(call.Fun).(*ast.SelectorExpr)
+			if !ok || !orderedMapType(pk.TypesInfo.TypeOf(sel.X)) {
+				return true
+			}
+			sig, base, ok := sigOf(f, call.Args[0])
+			if !ok {
+				return true // keyed by something that is not a declared name (a derived table)
+			}
+			n++
+			key := fmt.Sprintf("%s | %s.Set(%s)", f.Name(), exprString(sel.X), exprString(call.Args[0]))
+			mapPath := accessPath(pk, sel.X)
+			if guarded(f, call, mapPath, sig) {
+				r.Ok("C03-DECLARED-NAMES-UNIQUE", key, "a Has test of the same map and parameter with an error on a hit dominates the insertion", c.pos(call.Pos()))
+				return true
+			}
+			// lift to the callers when the directive and the map are the function's parameter and receiver
+			sites, closed := c.callersOf(f)
+			okAll := len(sites) > 0
+			if f.Obj.Exported() {
+				// exported but only meaningful inside the build: the callers inside the library are what the build runs
+				closed = true
+			}
+			for _, cs := range sites {
+				mp, bp := rebase(f, sel.X, cs), rebase(f, base, cs)
+				if mp == "" || bp == "" || !guarded(cs.g, cs.call, mp, keySig{bp, sig.param}) {
+					okAll = false
+				}
+			}
+			if closed && okAll {
+				r.Ok("C03-DECLARED-NAMES-UNIQUE", key, fmt.Sprintf("each of the %d callers tests Has for the same parameter of the directive it hands in, with an error on a hit, before the call", len(sites)), c.pos(call.Pos()))
+			} else {
+				r.Bad("C03-DECLARED-NAMES-UNIQUE", key, "a declared name is inserted without a dominating presence test: a second declaration of the name silently replaces the first (and is compiled in its place)", c.pos(call.Pos()))
+			}
+			return true
+		})
+	}
+	if n == 0 {
+		r.Undecided("C03-DECLARED-NAMES-UNIQUE", "sites", "no table keyed by a declared name found (rawUserTypes used to match)", "")
 	}
 }
